@@ -302,6 +302,17 @@ namespace
 	 return std::vector<DFS::byte>();
       };
     errno = 0;
+    // Don't allocate more than the file can supply; len may come
+    // from a (possibly corrupt) field of the file itself.
+    if (0 != fseek(f_, 0, SEEK_END))
+      return fail();
+    const long file_size = ftell(f_);
+    if (file_size < 0)
+      return fail();
+    if (static_cast<unsigned long>(file_size) <= pos)
+      return std::vector<DFS::byte>(); // nothing to read at or beyond EOF
+    if (len > static_cast<unsigned long>(file_size) - pos)
+      len = static_cast<unsigned long>(file_size) - pos;
     if (0 != fseek(f_, pos, SEEK_SET))
       return fail();
     std::vector<DFS::byte> buf;
